@@ -75,7 +75,7 @@ def main(argv=None):
                 # a self-test problem never hides a property verdict: report the violations first
                 selftest_problem = str(e)
                 rep.extra["selftest_problem"] = selftest_problem
-        code = R.finish(rep, mod.EXPLANATION, getattr(mod, "ASSUMPTIONS", []), TRUSTED + getattr(mod, "TRUSTED", []))
+        code = R.finish(rep, mod.EXPLANATION, getattr(mod, "ASSUMPTIONS", []), TRUSTED + getattr(mod, "TRUSTED", []), write=os.environ.get("SA_NO_EVIDENCE") != "1")
         if selftest_problem and code == 0:
             print(f"ANALYSIS-ERROR property={prop} {selftest_problem}")
             return 2
